@@ -2,16 +2,19 @@
 """usage: import_seeded.py CNN  -- copy /tmp/seed_out/CNN/{A,B} into /verif/seeded/CNN-A, CNN-B with meta.json"""
 import json, os, shutil, sys
 pid = sys.argv[1]
+wave = sys.argv[2] if len(sys.argv) > 2 else "a"     # "b": second wave, stored as CNN-C / CNN-D
+base = "/tmp/seed_out" if wave == "a" else "/tmp/seed_outb"
+names = {"A": "A", "B": "B"} if wave == "a" else {"A": "C", "B": "D"}
 for k in ("A", "B"):
-    src = f"/tmp/seed_out/{pid}/{k}"
+    src = f"{base}/{pid}/{k}"
     if not os.path.exists(f"{src}/patch.diff"):
         print("missing", src); continue
-    dst = f"/verif/seeded/{pid}-{k}"
+    dst = f"/verif/seeded/{pid}-{names[k]}"
     os.makedirs(dst, exist_ok=True)
     for f in ("patch.diff", "demo.py", "notes.md"):
         if os.path.exists(f"{src}/{f}"):
             shutil.copy(f"{src}/{f}", f"{dst}/{f}")
     notes = open(f"{src}/notes.md").read() if os.path.exists(f"{src}/notes.md") else ""
-    meta = {"property": pid, "origin": "sub-agent given only the property text and a scratch worktree", "needs_to_manifest": "see notes.md", "verified": {}}
+    meta = {"property": pid, "origin": "sub-agent given only the property text and a scratch worktree" + ("" if wave == "a" else " (second wave: told which mechanisms the first wave had used, asked for different ones)"), "needs_to_manifest": "see notes.md", "verified": {}}
     json.dump(meta, open(f"{dst}/meta.json", "w"), indent=1)
     print("imported", dst)
